@@ -288,6 +288,20 @@ def _local_adt(crate, name):
     mods = getattr(crate, '_local_mods', None)
     if mods is None:
         mods = {f['name'].split('::')[0] for f in crate.j.get('fns', []) if not f['name'].startswith('<')} if hasattr(crate, 'j') else set()
+        # a module that only holds types (no functions): every ADT path whose first segment is neither a standard crate
+        # nor a crate some call resolves into
+        if hasattr(crate, 'j'):
+            ext = {'std', 'core', 'alloc'}
+            for f in crate.j.get('fns', []):
+                for b in f['blocks']:
+                    t = b['term']
+                    if t['t'] == 'call' and not t['callee'].get('local'):
+                        k_ = t['callee'].get('krate')
+                        if k_:
+                            ext.add(k_)
+                        ext.add((t['callee'].get('def') or '').split('::')[0].lstrip('<'))
+            own = crate.j.get('crate')
+            mods |= {n.split('::')[0] for n in (crate.j.get('adts') or {}) if '::' in n and n.split('::')[0] not in ext and n.split('::')[0] != own}
         try:
             crate._local_mods = mods
         except AttributeError:
